@@ -1,4 +1,5 @@
 import OV.Model.C12Autocast
+import OV.Model.C12Opset
 import OV.Lemmas.C12Autocast
 import OV.Lemmas.C12Rename
 import OV.Lemmas.C12Scope
@@ -185,42 +186,59 @@ example :
     castStatic sigTU args = .ok [.pass .float, .const .int64 true [.i 1, .i 1]]
     ∧ castDynamic sigTU args = castStatic sigTU args ∧ castBuilder sigTU args = castStatic sigTU args := by decide
 
-/-! ## Which positional arguments reach `cast_inputs` -/
+/-! ## Which arguments reach `cast_inputs`, and at which position (param_manipulation as of b7afd5e) -/
 
 open OV.Call in
-/-- **positional_inputs_are_prefix.**  For every parameter list of the shape `OpSignature.from_op_schema` builds (inputs —
-optional, required, variadic, in any mix — followed by attributes), every number `n` of positional arguments and both
-settings of `allow_extra_args` (converter: allowed; graph builder: refused): when
-`separate_input_attributes_from_arguments` succeeds, the arguments it hands on as operator inputs are exactly the first
-`m ≤ n` positional arguments, in order — never reordered, skipped or duplicated; whatever follows became attributes or
-was dropped.  So the argument lists over which `three_agree` and `registry_ok` quantify are the lists the front ends
-really see. -/
-theorem positional_inputs_are_prefix (ins attrs : List Param) (hi : ∀ p ∈ ins, p.isInput = true)
-    (ha : ∀ p ∈ attrs, p.isInput = false) (n : Nat) (allowExtra : Bool) (r : Sep)
-    (h : separate (ins ++ attrs) n allowExtra = .ok r) : ∃ m, m ≤ n ∧ r.inputs = List.range m := by
-  unfold separate at h
-  cases hs : sepFrom (ins ++ attrs) 0 n ⟨[], []⟩ with
-  | error e => rw [hs] at h; cases h
-  | ok r0 =>
-    rw [hs] at h
-    obtain ⟨m, hm, hin⟩ := sepFrom_prefix ins attrs 0 n ⟨[], []⟩ r0 hi ha hs
-    have hr : r = r0 := by
-      simp only [] at h
-      by_cases hc : (!allowExtra && !hasVariadic (ins ++ attrs) && decide ((ins ++ attrs).length < n)) = true
-      · rw [if_pos hc] at h; cases h
-      · rw [if_neg hc] at h; cases h; rfl
-    subst hr
-    exact ⟨m, by omega, by simpa [List.range_eq_range'] using hin⟩
+/-- **inputs_keep_their_positions.**  For every parameter list without a variadic input (plain inputs — optional or
+required, any mix — followed by attributes), every number `n` of positional arguments, every set `kws` of parameters
+given by keyword and both `allow_extra_args` settings: when `separate_input_attributes_from_arguments` succeeds, the
+operator inputs it returns are exactly `slot 0, slot 1, …` with the trailing placeholders removed, where `slot j` is
+the `j`-th positional argument if there is one, else the keyword argument naming parameter `j`, else `None` — every
+argument sits at the position of its own parameter (`op.Clip(x, max=hi)` is `Clip(x, None, hi)`). -/
+theorem inputs_keep_their_positions (ins attrs : List Param) (hi : ∀ p ∈ ins, p.isPlainInput = true)
+    (ha : ∀ p ∈ attrs, p.isInput = false) (n : Nat) (kws : List Nat) (allowExtra : Bool)
+    (inp : List (Option Src)) (ats : List (Nat × Src))
+    (h : separate (ins ++ attrs) n kws allowExtra = .ok (inp, ats)) :
+    inp = trimNone ((List.range ins.length).map (slot n kws)) :=
+  separate_plain ins attrs hi ha n kws allowExtra inp ats h
 
 open OV.Call in
-/-- Non-vacuity: `Softmax(input; axis)` with two positional arguments → input 0, attribute `axis` := argument 1; a third
-argument is dropped by the converter and refused by the builder; `Concat(inputs…; axis)` takes all positionals as inputs. -/
+/-- The same when the last input is variadic: the plain inputs keep their positions, the variadic input takes all
+remaining positional arguments in order. -/
+theorem inputs_keep_their_positions_variadic (ins attrs : List Param) (q : Bool)
+    (hi : ∀ p ∈ ins, p.isPlainInput = true) (ha : ∀ p ∈ attrs, p.isInput = false) (n : Nat) (kws : List Nat)
+    (allowExtra : Bool) (inp : List (Option Src)) (ats : List (Nat × Src))
+    (h : separate (ins ++ (.input true q :: attrs)) n kws allowExtra = .ok (inp, ats)) :
+    inp = trimNone ((List.range ins.length).map (slot n kws) ++
+      (List.range' ins.length (n - ins.length)).map (fun j => some (.pos j))) :=
+  separate_variadic_last ins attrs q hi ha n kws allowExtra inp ats h
+
+open OV.Call in
+/-- **positional_inputs_are_prefix** (re-pinned to b7afd5e).  With positional arguments only, the inputs handed on are
+exactly the first `min n k` positional arguments (`k` = number of inputs), in order, with no placeholder — never
+reordered, skipped or duplicated; whatever follows became attributes or was dropped. -/
+theorem positional_inputs_are_prefix (ins attrs : List Param) (hi : ∀ p ∈ ins, p.isPlainInput = true)
+    (ha : ∀ p ∈ attrs, p.isInput = false) (n : Nat) (allowExtra : Bool)
+    (inp : List (Option Src)) (ats : List (Nat × Src))
+    (h : separate (ins ++ attrs) n [] allowExtra = .ok (inp, ats)) :
+    inp = (List.range (min n ins.length)).map (fun j => some (.pos j)) := by
+  rw [separate_plain ins attrs hi ha n [] allowExtra inp ats h, slots_nokw]
+  exact trimNone_somes_replicate Src.pos _ _
+
+open OV.Call in
+/-- Non-vacuity: `Clip(input; min?, max?)`: `Clip(x, max=hi)` keeps `hi` in third place; `Clip(x)` has one input;
+`Softmax(input; axis)` with two positionals → attribute; a third is dropped by the converter and refused by the
+builder; `Concat(inputs…; axis)` takes all positionals as inputs. -/
 example :
-    separate [.input false true, .attr false true] 2 true = .ok ⟨[0], [(1, 1)]⟩ ∧
-    separate [.input false true, .attr false true] 3 true = .ok ⟨[0], [(1, 1)]⟩ ∧
-    separate [.input false true, .attr false true] 3 false = .error .tooMany ∧
-    separate [.input false true, .attr false true] 0 true = .error .missing ∧
-    separate [.input true true, .attr true true] 3 false = .ok ⟨[0, 1, 2], []⟩ := by decide
+    separate [.input false true, .input false false, .input false false] 1 [2] true
+      = .ok ([some (.pos 0), none, some (.kw 2)], []) ∧
+    separate [.input false true, .input false false, .input false false] 1 [] true = .ok ([some (.pos 0)], []) ∧
+    separate [.input false true, .attr false true] 2 [] true = .ok ([some (.pos 0)], [(1, .pos 1)]) ∧
+    separate [.input false true, .attr false true] 3 [] true = .ok ([some (.pos 0)], [(1, .pos 1)]) ∧
+    separate [.input false true, .attr false true] 3 [] false = .error .tooMany ∧
+    separate [.input false true, .attr false true] 0 [] true = .error .missing ∧
+    separate [.input true true, .attr true true] 3 [] false = .ok ([some (.pos 0), some (.pos 1), some (.pos 2)], []) := by
+  refine ⟨?_, ?_, ?_, ?_, ?_, ?_, ?_⟩ <;> rfl
 
 /-! ## Which named operands the converter CastLikes, across If/Loop scopes -/
 
@@ -262,6 +280,21 @@ example : (run [.bindLit 0, .enter, .bindTensor 1, .enter, .use 0, .exit [], .ex
     = [some true, some true, some false] ∧
     safe 0 0 [.enter, .bindTensor 1, .enter, .use 0, .exit [], .exit [1]] = true ∧
     (run [.bindLit 0, .enter, .bindTensor 0, .use 0, .exit [0], .use 0]).obs = [some false, some false] := by decide
+
+/-! ## The converter's promotion and the opset (finding D47) -/
+
+/-- From opset 15 on, every operator the converter's promotion emits exists. -/
+theorem static_valid_from_opset15 {κ : Type} [DecidableEq κ] (v : Nat) (hv : 15 ≤ v) (fs : List (Formal κ))
+    (args : List Arg) : staticValidAt v fs args = true := by
+  simp [staticValidAt, castLikeSince, hv]
+
+/-- **Refuted for the supported opsets 13 and 14 — finding D47.**  "For every opset ≥ 13 the promotion only emits
+operators of that opset" is false: `Add(x, 1)` at opset 13 gets a `CastLike`, which exists from opset 15. -/
+theorem static_valid_below_opset15_refuted :
+    ¬ (∀ (v : Nat) (fs : List (Formal Nat)) (args : List Arg), 13 ≤ v → staticValidAt v fs args = true) := by
+  intro h
+  have := h 13 sigTT [.tensor .double true, .lit (.s (.i 1))] (by decide)
+  revert this; decide
 
 /-! ## First binding (builder) versus last binding (converter, eager) -/
 
